@@ -321,8 +321,8 @@ class Model:
         self.blocksize = b
 
     def set_bitshift(self, s):
-        if self.chan != 0:
-            raise InvalidTrace("bit shift change inside a frame")
+        # the shift is a per-BLOCK quantity in the format (a real encoder recomputes it for every
+        # block of every channel), so a BITSHIFT command may also sit between the blocks of one frame
         self.bitshift = s
 
     def frames(self):
